@@ -4,12 +4,12 @@ CONSTANTS
   MaxD = 3
   NonPerSides = {0, 1, 2, 3}
   PerSides = {2, 3}
-  MinInputs = 0
-  MaxInputs = 100000
+  MinInputs = 5
+  MaxInputs = 6
   MaxCells = 400
-  ValSet = {0, 1, 2, 1000000}
-  ExhMax = 3
-  NSamples = 2
-  Primes = {2, 3, 5}
+  ValSet = {0, 1, 1000000}
+  ExhMax = 6
+  NSamples = 1
+  Primes = {2, 3}
 INVARIANT InvCase
 CHECK_DEADLOCK FALSE
